@@ -93,12 +93,20 @@ def E():
     return _E
 
 
+_ORD = {}
+
+
+def _cps(s: str) -> str:
+    g = _ORD.get
+    return ",".join([g(c) or _ORD.setdefault(c, str(ord(c))) for c in s])
+
+
 def tok(s: str) -> str:
-    return ",".join(str(ord(c)) for c in s) if s else "-"
+    return _cps(s) if s else "-"
 
 
 def show(s: str) -> str:
-    return ",".join(str(ord(c)) for c in s) if s else "e"
+    return _cps(s) if s else "e"
 
 
 def unshow(s: str) -> str:
@@ -106,7 +114,8 @@ def unshow(s: str) -> str:
 
 
 def dropws(s: str) -> str:
-    return "".join(c for c in s if not c.isspace())
+    # str.split() without argument splits at exactly the str.isspace() characters
+    return "".join(s.split())
 
 
 # --------------------------------------------------------------------------------------
@@ -629,7 +638,19 @@ def sets_token(sets):
     return ";".join(("/".join(tok(n) for n in key) if key else "e") for key, _ in inv)
 
 
+_PATHS = {}
+
+
 def path_of(x, soup):
+    """child indices from the root; cached per (document, node) -- cleared for every document (trees are not edited while checked)"""
+    key = (id(soup), id(x))
+    v = _PATHS.get(key)
+    if v is None:
+        v = _PATHS[key] = path_of_(x, soup)
+    return v
+
+
+def path_of_(x, soup):
     p = []
     while x is not soup:
         par = x.parent
@@ -760,6 +781,7 @@ def check_document_(ctx: Ctx, recipe, stream, r, specs_pool, unit_of_spec, reque
         ctx.count("doc:recursion-skip")
         return
     nodes = all_nodes(soup)
+    _PATHS.clear()
     idmap = {id(x): i for i, x in enumerate(nodes)}
     tags = [x for x in nodes if isinstance(x, Tag)]
     ctx.count(f"doc:{stream}")
@@ -1420,6 +1442,7 @@ def run(ctx: Ctx):
         else:
             replies.append(all_replies[pos])
             pos += 1
+    shown = {}
     for q, rp in zip(requests, replies):
         if q["kind"] == "evs":
             got = rp
@@ -1441,7 +1464,12 @@ def run(ctx: Ctx):
                 else:
                     want.append(show(x))
         else:
-            want = q["real"] if q["kind"] in ("ev", "evs") else [show(x) for x in q["real"]]
+            if q["kind"] in ("ev", "evs"):
+                want = q["real"]
+            else:
+                want = shown.get(id(q["real"]))
+                if want is None:
+                    want = shown[id(q["real"])] = [show(x) for x in q["real"]]
         ctx.count(f"model:{q['kind']}:queries", len(want))
         if got == want:
             continue
